@@ -65,6 +65,7 @@ class Sim:
         self.skew = float(clock.get("skew0", 0.0))
         self.jump_rate = float(clock.get("jump_rate", 0.0))
         self.jump_mag = float(clock.get("jump_mag", 0.0))
+        self.clock_steps = {int(k): float(d) for k, d in (clock.get("steps") or [])}  # read ordinal -> step
         # "auto": joblib semantics (n_jobs==1 inline, else pickled process copies)
         self.par_mode = cfg.get("par_mode", "auto")
         self.cpu_count = int(cfg.get("cpu_count", 16))
@@ -72,6 +73,7 @@ class Sim:
         self.crash_open = cfg.get("crash_open")  # ordinal of the write-open that is never reached
         self.crash_op = cfg.get("crash_op")  # ordinal of the mutating file-system operation that is never reached
         self.crash_wcall = cfg.get("crash_wcall")  # ordinal of the write() call that is never reached
+        self.eio = cfg.get("eio")  # ["replace"|"read"|"open_write", k]: that operation fails with OSError at its k-th use
         self.enospc_after = cfg.get("enospc_after")
         self.now = 0.0
         self.log = []
@@ -122,6 +124,10 @@ class Sim:
         self.now += dt
 
     def wall(self):
+        k = self.ordinal("clock_read")
+        if k in self.clock_steps:  # NTP step / suspend-resume at a planned read
+            self.skew += self.clock_steps[k]
+            self.fired["clock_jump"] += 1
         if self.jump_rate > 0 and self.unit("clock_jump") < self.jump_rate:
             sign = 1 if self.choice("clock_sign", 2) else -1
             self.skew += sign * self.jump_mag * (0.1 + 0.9 * self.unit("clock_mag"))
